@@ -197,28 +197,66 @@ func openFileFlags(c *Ctx, f *ssa.Function) (int64, bool) {
 
 func c20Reopen(c *Ctx, r *Report, fn *ssa.Function) {
 	r.Rule("R20.2", "reopen never truncates: the truncating constructor is reached only under a condition that depends on the evictedFilenames[filename] lookup (and the manager's append flag); the two constructors differ exactly in O_TRUNC versus O_APPEND")
-	var trunc, app *ssa.Call
-	for _, b := range fn.Blocks {
-		for _, in := range b.Instrs {
-			if call, ok := in.(*ssa.Call); ok {
-				switch CalleeName(&call.Call) {
-				case "pkg/output.NewFileWriteOutputHandler":
-					trunc = call
-				case "pkg/output.NewFileAppendOutputHandler":
-					app = call
+	findCtors := func(h *ssa.Function) (trunc, app *ssa.Call) {
+		for _, b := range h.Blocks {
+			for _, in := range b.Instrs {
+				if call, ok := in.(*ssa.Call); ok {
+					switch CalleeName(&call.Call) {
+					case "pkg/output.NewFileWriteOutputHandler":
+						trunc = call
+					case "pkg/output.NewFileAppendOutputHandler":
+						app = call
+					}
 				}
+			}
+		}
+		return
+	}
+	strParam := func(h *ssa.Function) ssa.Value {
+		var v ssa.Value
+		for _, p := range h.Params {
+			if isStringType(p.Type()) {
+				v = p
+			}
+		}
+		return v
+	}
+	trunc, app := findCtors(fn)
+	filename := strParam(fn)
+	if trunc == nil || app == nil {
+		// the choice may live in a helper method of the manager, called with the same file name
+		for _, b := range fn.Blocks {
+			for _, in := range b.Instrs {
+				call, ok := in.(*ssa.Call)
+				if !ok {
+					continue
+				}
+				h := call.Call.StaticCallee()
+				if h == nil || h.Blocks == nil || h.Signature.Recv() == nil || fn.Signature.Recv() == nil || !types.Identical(h.Signature.Recv().Type(), fn.Signature.Recv().Type()) {
+					continue
+				}
+				t2, a2 := findCtors(h)
+				if t2 == nil || a2 == nil {
+					continue
+				}
+				passes := false
+				hp := strParam(h)
+				for i, a := range call.Call.Args {
+					if a == filename && i < len(h.Params) && h.Params[i] == hp {
+						passes = true
+					}
+				}
+				if !passes {
+					r.Fail("R20.2", "helper receives the file name", c.Rel(call.Pos()), SSAName(h)+" chooses between truncating and appending but is not called with getOutputHandlerFor's own file name")
+					return
+				}
+				trunc, app, filename = t2, a2, hp
 			}
 		}
 	}
 	if trunc == nil || app == nil {
-		r.Undecided("R20.2", "constructors", c.Rel(fn.Pos()), "getOutputHandlerFor no longer calls NewFileWriteOutputHandler / NewFileAppendOutputHandler directly")
+		r.Undecided("R20.2", "constructors", c.Rel(fn.Pos()), "neither getOutputHandlerFor nor a manager method it calls with the file name calls both NewFileWriteOutputHandler and NewFileAppendOutputHandler")
 		return
-	}
-	var filename ssa.Value
-	for _, p := range fn.Params {
-		if isStringType(p.Type()) {
-			filename = p
-		}
 	}
 	isEvictedLookup := func(v ssa.Value) bool {
 		lk, ok := v.(*ssa.Lookup)
